@@ -57,7 +57,8 @@ def defuse_xml(fp: IOType, rewind: bool = True) -> IOType:
         if isinstance(fp, io.RawIOBase):
             # Wrap a not seekable raw IO object in a BufferedReader
             fp = io.BufferedReader(fp)
-        elif isinstance(fp, io.BufferedIOBase):
+
+        if isinstance(fp, io.BufferedIOBase):
             # Other not seekable BufferedIOBase resources are wrapped in
             # a custom reader with an initial buffer of 64KiB bytes.
             try:
